@@ -426,6 +426,9 @@ func vRun(t *testing.T, sc *vScenario, opt vRunOpts) *vRunResult {
 		}
 		s.setHook(hook)
 		s.Z.Hook = hook
+		if sc.Fault != nil && sc.Fault.Occ == 0 {
+			hook.arm(sc.Fault) // a persistent fault holds from the very start
+		}
 		// processes: the designated manager first so that it takes the lock
 		order := []string{sc.Manager}
 		for _, h := range sc.Hosts {
@@ -468,7 +471,9 @@ func vRun(t *testing.T, sc *vScenario, opt vRunOpts) *vRunResult {
 				}
 			}
 		}()
-		hook.arm(sc.Fault)
+		if sc.Fault == nil || sc.Fault.Occ != 0 {
+			hook.arm(sc.Fault)
+		}
 		s.fileRequest(sc)
 		rounds := sc.Rounds
 		if rounds == 0 {
